@@ -305,7 +305,11 @@ func c17Docs(cfg Config, lim c17Limits) ([]corpus.Doc, error) {
 				same = append(same, d)
 			}
 		}
-		for i := 0; i+1 < len(same) && i < 4; i += 2 {
+		npairs := 4
+		if lim.genPerFmt < 20 {
+			npairs = 2 // quick tier: one pair per format
+		}
+		for i := 0; i+1 < len(same) && i < npairs; i += 2 {
 			a, b := same[i], same[i+1]
 			docs = append(docs,
 				corpus.Doc{Name: a.Name + "+" + b.Name, Format: f, Data: append(append([]byte(nil), a.Data...), b.Data...), Cues: -1, Gen: true},
@@ -371,7 +375,7 @@ func RunC17(cfg Config) (*ShardResult, error) {
 				for pi, p := range plans {
 					p.Medium = medium
 					// quick tier: the secondary configurations of a format (callbacks, PID-only, page-only) take every third single split
-					if cfg.Tier != "thorough" && ri >= 2 && p.Name == "split" && pi%3 != 0 {
+					if cfg.Tier != "thorough" && ri >= 2 && (p.Name == "split" && pi%3 != 0 || medium == "bufio") {
 						continue
 					}
 					key := Key64(dh, reader, planKey(p))
@@ -384,6 +388,7 @@ func RunC17(cfg Config) (*ShardResult, error) {
 					}
 					o, sr := EvalRead(reader, d.Data, p)
 					res.Evaluations++
+					res.Extra["cases:"+docCategory(d)]++
 					res.SimEvents += int64(sr.St.Reads + sr.St.Seeks)
 					res.Note(dh, reader, planKey(p), o.Key(), fmt.Sprint(sr.St.Reads, sr.St.Seeks))
 					dataReads := sr.St.Reads - sr.St.ZeroReads
@@ -555,6 +560,24 @@ func c17RealReaders(cfg Config, reader string, d corpus.Doc, res *ShardResult) (
 		}
 	}
 	return vs
+}
+
+// docCategory names the part of the corpus a document belongs to (evidence breakdown).
+func docCategory(d corpus.Doc) string {
+	switch {
+	case strings.Contains(d.Name, "~mut"):
+		return "mutated-" + d.Format
+	case strings.HasPrefix(d.Name, "testdata/"):
+		return "testdata-" + d.Format
+	case strings.Contains(d.Name, "+"):
+		return "concatenated-" + d.Format
+	case strings.HasPrefix(d.Name, "gen-"):
+		return "generated-" + d.Format
+	}
+	if i := strings.Index(d.Name, "-"); i > 0 {
+		return d.Name[:i] + "-" + d.Format
+	}
+	return d.Format
 }
 
 func samplePlan(p simio.ReadPlan) simio.ReadPlan {
